@@ -39,6 +39,9 @@ class DictDecoder:
         Returns:
             An instance of the specified class representing the decoded content.
         """
+        if not isinstance(data, (dict, list)):
+            raise ParserError("Document must be an object or an array")
+
         tp = self.verify_type(clazz, data)
         if not isinstance(data, list):
             return self.bind_dataclass(data, tp)
@@ -114,6 +117,11 @@ class DictDecoder:
         Returns:
             An instance of the class type representing the parsed content.
         """
+        if not isinstance(data, dict):
+            raise ParserError(
+                f"Expected an object for {clazz.__qualname__}, got: {type(data).__name__}"
+            )
+
         if set(data.keys()) == self.context.class_type.derived_keys:
             return self.bind_derived_dataclass(data, clazz)
 
@@ -241,6 +249,10 @@ class DictDecoder:
         """
         # xs:anyAttributes get it out of the way, it's the mapping exception!
         if var.is_attributes:
+            if not isinstance(value, dict):
+                raise ParserError(
+                    f"Expected an object for {meta.clazz.__qualname__}.{var.name}"
+                )
             return dict(value)
 
         # Repeating element, recursively bind the values
@@ -300,7 +312,13 @@ class DictDecoder:
             # Token values of frozen models are encoded as tuples
             value = list(value)
 
-        value = converter.serialize(value)
+        try:
+            value = converter.serialize(value)
+        except TypeError as e:
+            raise ParserError(
+                f"Failed to bind '{value}' "
+                f"to {meta.clazz.__qualname__}.{var.name} field: {e}"
+            )
 
         # Convert value according to the field types
         return ParserUtils.parse_var(
@@ -332,7 +350,10 @@ class DictDecoder:
             # xs:anyType element, check all meta classes
             return self.bind_best_dataclass(data, meta.element_types)
 
-        assert var.clazz is not None
+        if var.clazz is None:
+            raise ParserError(
+                f"Unexpected object for {meta.clazz.__qualname__}.{var.name}"
+            )
 
         subclasses = list(self.context.get_subclasses(var.clazz))
         if subclasses:
